@@ -377,7 +377,29 @@ func checkNext(idx int, p parsed, z *zone, t time.Time) (ran bool) {
 		case ans.want.IsZero():
 			what = "is non-zero although nothing matches up to the end of year Y+5"
 		}
-		rec.Violation(idx, "next-mismatch/"+class, fmt.Sprintf("%s options %s zone %s: Next(%s) = %s %s; expected %s", p.spec, p.o.name, z.name, fmtT(t, z.loc), fmtT(got, z.loc), what, fmtT(ans.want, z.loc)), replay(trs))
+		// A recorded finding is a specific wrong answer, not a licence for the
+		// whole transition class: the finding's signature is kept only if kit's
+		// answer is the one the pinned algorithm gives for this very input.
+		sig := "next-mismatch/" + class
+		rp := replay(trs)
+		if recordedClasses[class] {
+			recorded := time.Time{}
+			if ss, isSpec := p.ks.(*cron.SpecSchedule); isSpec {
+				recorded = frozenKitNext(ss, t)
+				rec.Progress()
+			}
+			rp["recorded_wrong_answer_of_pinned_algorithm"] = fmtT(recorded, z.loc)
+			if got.Equal(recorded) || (got.IsZero() && recorded.IsZero()) {
+				rec.Count("next.mismatch.recorded_finding_reproduced", 1)
+			} else {
+				sig += "/answer-differs-from-recorded-finding"
+				what += fmt.Sprintf(" (and it is not the recorded wrong answer %s of the pinned algorithm either)", fmtT(recorded, z.loc))
+				rec.Count("next.mismatch.answer_differs_from_recorded_finding", 1)
+			}
+		} else {
+			rec.Count("next.mismatch.outside_recorded_classes", 1)
+		}
+		rec.Violation(idx, sig, fmt.Sprintf("%s options %s zone %s: Next(%s) = %s %s; expected %s", p.spec, p.o.name, z.name, fmtT(t, z.loc), fmtT(got, z.loc), what, fmtT(ans.want, z.loc)), rp)
 		rec.Count("next.mismatch", 1)
 	}
 	// coverage
@@ -611,7 +633,7 @@ var descLayouts = func() []layout {
 // ---------------------------------------------------------------- the plan
 
 type kase struct {
-	kind string // probe table refuse descriptor every lists trans seeded longgap
+	kind string // probe table refuse descriptor every lists trans pinned seeded longgap
 	a, b int
 	zone string
 	tr   trans
@@ -713,6 +735,17 @@ func plan() ([]kase, []string) {
 			}
 		}
 	}
+	for _, zn := range zones {
+		z := getZone(zn)
+		if z == nil {
+			continue
+		}
+		for _, tr := range z.trs {
+			if tr.is(kMidnightGap) || tr.is(kMidnightRepeat) || tr.is(kNonHour) {
+				ks = append(ks, kase{kind: "pinned", zone: zn, tr: tr})
+			}
+		}
+	}
 	for j := 0; j < mon.Pick(700, 150000); j++ {
 		ks = append(ks, kase{kind: "seeded", a: j, zone: zones[j%len(zones)]})
 	}
@@ -729,12 +762,13 @@ func TestCheck(t *testing.T) {
 	defer rec.Close()
 	hangKnown = mon.Resume() > 0 && mon.Only() < 0
 	rec.Note("rule", "Parse: for every option-set layout (standard/5, seconds/6, seconds-optional/6 and /5, dow-optional/5 and /4, seconds+dow-optional/6 and /5, both without descriptors) and every field it contains, every single term is enumerated: every start token (*, ?, each value, each month/day name in three casings) alone, with every step 0..range+2,100,1000, and combined with every end token and every step (inverted ranges and zero steps are expected refusals); plus seeded lists, descriptors, TZ=/CRON_TZ= prefixes and the refusal table (field counts, min-1/max+1 in every position, non-numeric tokens, unknown names/descriptors/zones, descriptors when disabled). A parse case is one (layout, expression); enumerated without repetition. Its six value sets and the two unrestricted-day flags are compared with a reference parser written from doc.go. "+
-		"Next: one case is (option set, expression, zone, start instant); the expected answer is the earliest matching whole second found by an independent search over the zone's constant-offset periods (Time.ZoneBounds + integer calendar arithmetic on offset-shifted seconds). For every zone of the tier and every offset change 1968-2037: start instants {-2d,-1d,-1h,-1s,0,+1s,+1h} around it and one seeded instant, each with seeded schedules (well-known, built from the wall-clock readings around the change, or from the grammar with sparse day fields); plus seeded (zone, instant, schedule) triples, Feb-29 / impossible-date schedules for the five-year horizon, descriptors and @every. Non-trivial = the answer is not simply the next second (the search had to skip at least one second) or no answer exists; distinct = distinct (options, expression, zone, instant).")
+		"Next: one case is (option set, expression, zone, start instant); the expected answer is the earliest matching whole second found by an independent search over the zone's constant-offset periods (Time.ZoneBounds + integer calendar arithmetic on offset-shifted seconds). For every zone of the tier and every offset change 1968-2037: start instants {-2d,-1d,-1h,-1s,0,+1s,+1h} around it and one seeded instant, each with seeded schedules (well-known, built from the wall-clock readings around the change, or from the grammar with sparse day fields); for every transition that removes or repeats local 00:00 or shifts by a non-whole hour additionally schedules with restricted day fields pinned ON the transition day and the three days after it (noon, each minute 00:00-00:29, the readings around the switch), started 1-5 days earlier; plus seeded (zone, instant, schedule) triples, Feb-29 / impossible-date schedules for the five-year horizon, descriptors and @every. Non-trivial = the answer is not simply the next second (the search had to skip at least one second) or no answer exists; distinct = distinct (options, expression, zone, instant).")
 	rec.Note("require", []string{"parse.ok.sets_equal", "parse.refused.wrong-field-count", "parse.refused.out-of-range", "parse.refused.non-numeric", "parse.refused.inverted-range",
 		"parse.refused.zero-step", "parse.refused.unknown-name", "parse.refused.unknown-descriptor", "parse.refused.unknown-zone", "parse.refused.descriptor-disabled",
 		"next.search_crosses.ordinary", "next.search_crosses.midnight-gap", "next.search_crosses.non-hour-shift", "next.search_crosses.midnight-repeat",
-		"next.search_crosses.off-hour-boundary", "next.search_crosses.multi-hour-shift", "next.skipped_day_probe", "reference.self_checked_by_brute_force",
+		"next.search_crosses.off-hour-boundary", "next.search_crosses.multi-hour-shift", "next.skipped_day_probe", "reference.self_checked_by_brute_force", "next.pinned_on_transition_day",
 		"next.either_day_rule", "next.expected_zero", "next.match_more_than_a_year_away", "next.t_in_other_location", "every.checked", "descriptor.sets_checked"})
+	rec.Note("known_finding_matching", "a mismatch keeps a recorded finding's signature (next-mismatch/dst/<class>) only if its transition class is one of the five recorded ones AND kit's answer equals the answer of a frozen golden copy of the pinned Next algorithm for that very input (frozen_test.go); any other wrong answer in such a class is next-mismatch/dst/<class>/answer-differs-from-recorded-finding, which no finding lists; counters next.mismatch.* say how often each path was taken")
 	rec.Note("tolerances", "a match later than t+1825 days but not later than the end of calendar year Y+5 may be returned or not; the unrestricted flag of '*/1' and of lists containing '*' is not judged; '?' outside the day fields, empty list items, '*-5' and similar shapes are not judged; the location of the returned Time is observed, not judged")
 	ks, zones := plan()
 	rec.Note("zones", len(zones))
@@ -758,6 +792,8 @@ func TestCheck(t *testing.T) {
 			runEvery(idx, k)
 		case "trans":
 			runTrans(idx, k)
+		case "pinned":
+			runPinned(idx, k)
 		case "seeded":
 			runSeeded(idx, k)
 		case "longgap":
@@ -1176,6 +1212,92 @@ func runTrans(idx int, k kase) {
 			checkNext(idx, p, z, place(t))
 		}
 		checkNext(idx, p, z, place(time.Unix(extra, extraNs)))
+	}
+}
+
+// runPinned: schedules whose day fields are restricted and pinned ON the day
+// of a transition that removes or repeats local midnight or shifts by a
+// non-whole hour (and on the days right after it), started one to five days
+// earlier, so that a day-by-day search has to step onto and over the short or
+// long day. Hours/minutes: noon, the first readings after local midnight
+// (00:00-00:29 minute by minute), the readings around the switch.
+func runPinned(idx int, k kase) {
+	z := getZone(k.zone)
+	rng := mon.NewRNG("c04-pinned", idx)
+	tr := k.tr
+	for _, kind := range tr.kinds() {
+		rec.Count("plan.pinned_groups."+kind, 1)
+	}
+	dayOf := func(local int64) (mo, d, wd int) {
+		day := floorDiv(local, 86400)
+		_, mo, d = civil(day)
+		return mo, d, int((day%7 + 11) % 7)
+	}
+	newReading := tr.at + int64(tr.after) // wall clock right after the switch
+	oldReading := tr.at + int64(tr.before)
+	for s := 0; s < mon.Pick(8, 16); s++ {
+		l := pickLayout(rng)
+		// the pinned day: the transition day (new or old reading), or one of the three days after it
+		base := newReading
+		if rng.Chance(1, 4) {
+			base = oldReading
+		}
+		if s%2 == 1 {
+			base += int64(rng.Range(1, 3)) * 86400
+		}
+		mo, d, wd := dayOf(base)
+		six := [6]string{"0", "0", "12", fmt.Sprint(d), fmt.Sprint(mo), rng.PickStr("?", "*")}
+		switch s % 4 {
+		case 0: // noon (or another plain hour) on the pinned date
+			six[fHour] = fmt.Sprint(rng.PickInt(12, 12, 6, 18, 23, 1, 2, 3))
+		case 1: // the first half hour after local midnight, a single minute
+			six[fHour], six[fMin] = "0", fmt.Sprint(rng.Range(0, 29))
+		case 2: // readings around the switch
+			r := base + int64(rng.PickInt(0, 60, 1800, 3600, -60, -1800, -3600))
+			sod := r - floorDiv(r, 86400)*86400
+			mo, d, wd = dayOf(r)
+			six[fDom], six[fMonth] = fmt.Sprint(d), fmt.Sprint(mo)
+			six[fHour], six[fMin] = fmt.Sprint(sod/3600), fmt.Sprint(sod/60%60)
+		case 3: // midnight itself / a range of early minutes
+			six[fHour], six[fMin] = "0", rng.PickStr("0", "0-29", "*/10", "15", "29", "*")
+		}
+		switch rng.Intn(5) {
+		case 0: // day-of-week pinned instead of day-of-month
+			six[fDom], six[fDow] = rng.PickStr("*", "?"), rng.PickStr(fmt.Sprint(wd), fieldDefs[fDow].names[wd])
+		case 1: // both restricted: either day
+			six[fDow] = fmt.Sprint((wd + rng.Range(1, 6)) % 7)
+		case 2: // any month
+			six[fMonth] = "*"
+		case 3:
+			six[fMonth] = fieldDefs[fMonth].names[mo-1]
+		}
+		if l.withSec && rng.Chance(1, 3) {
+			six[fSec] = rng.PickStr("30", "59", "*/20")
+		}
+		spec, place := present(rng, z, fit(l, six))
+		var ts []time.Time
+		for days := 1; days <= 5; days++ {
+			u := tr.at - int64(days)*86400 + int64(rng.Range(-6*3600, 6*3600))
+			ns := int64(0)
+			if rng.Chance(1, 6) {
+				ns = int64(rng.Intn(1_000_000_000))
+			}
+			ts = append(ts, time.Unix(u, ns))
+		}
+		var sb strings.Builder
+		for _, t := range ts {
+			fmt.Fprintf(&sb, " %d.%09d", t.Unix(), t.Nanosecond())
+		}
+		rec.Step(fmt.Sprintf("options=%s spec=%q zone=%s instants=%s", l.o.name, spec, z.name, sb.String()))
+		p, ok := checkParse(idx, l.o, spec)
+		if !ok || p.rs.every {
+			continue
+		}
+		for _, t := range ts {
+			if checkNext(idx, p, z, place(t)) {
+				rec.Count("next.pinned_on_transition_day", 1)
+			}
+		}
 	}
 }
 
